@@ -398,6 +398,10 @@ class annotate(object):
         func.__signature__ = sig
         for pok in reversed(poks):
             pok._prepare()
+            # ... and so do the bound wrappers somebody still holds
+            for bound in list(pok.insts.values()):
+                if bound is not pok and isinstance(bound, _PokTranslator):
+                    bound._prepare()
         return obj
 
     def __repr__(self):
